@@ -42,7 +42,14 @@ def takagi(matrix, connector, atol=1e-12):
 
     V, singular_values, W_adjoint = connector.svd(matrix)
 
-    W = np.conj(W_adjoint).T
+    # NOTE: The singular vectors are converted to complex ones, since for a real
+    # matrix the blocks `Z` below would be real, and the real Schur form of a real
+    # matrix is only block triangular (e.g., for a rotation in the kernel of
+    # `matrix`), hence its diagonal would not contain the eigenvalues.
+    complex_dtype = np.result_type(V, np.complex64)
+
+    V = np.asarray(V, dtype=complex_dtype)
+    W = np.asarray(np.conj(W_adjoint).T, dtype=complex_dtype)
 
     singular_value_multiplicity_indices = []
     singular_value_multiplicity_values = []
